@@ -6,7 +6,7 @@ parameter; here it is a table: phase 1 asks the model for the exact evidence aft
 it 60-digit mpmath logarithms of those rationals (and of the likelihoods) as 220-bit dyadics and reads the
 information values back.  What is compared (model == code, no property-level demand):
   * the LENGTH of `state.info` (one entry per increment whose oldZ, logZ, logL are all finite — never the first),
-  * every `info[i]` to 64 N eps max(1, max|logL|),
+  * every `info[i]` to 64 N eps max(1, max|logL|)^2 (cancellation error of the float recursion),
   * `log_evidence_error`: NaN exactly when the model's last value is negative, else sqrt(info[-1] / base_nlive).
 """
 import math
@@ -95,7 +95,9 @@ def compare(ctx, case, out2, real_info, real_err):
         minfo = [dy_float(t) for t in f["info"][1:-1].split(",")]
         N = len(case["L"])
         scale = max([1.0] + [abs(float(c02.dy_log(a, e))) for a, e in case["L"] if a > 0])
-        tol = 64 * max(N, 1) * 2.3e-16 * scale + 1e-12
+        # float64 error of the recursion: the weights exp(Wt - logZ), exp(oldZ - logZ) carry a relative error eps*|logL| and
+        # multiply numbers of size |logL|, so the cancellation error grows like eps * max|logL|^2 (observed 1.0e-10 at |logL| = 624)
+        tol = 64 * max(N, 1) * 2.3e-16 * scale * scale + 1e-12
         if len(minfo) != len(real_info):
             bad.append(f"len(info): model {len(minfo)} impl {len(real_info)}")
         else:
